@@ -215,6 +215,26 @@ Fixpoint run (c : cfg) (s : st) (ops : list op) : st * list out :=
               let '(s2, xs) := run c s1 r in (s2, x :: xs)
   end.
 
+(* ------------------------------------------------------------------ vocabulary of the theorems *)
+
+(* the PUT passed the dependency check *)
+Definition passed (p : put) : bool := p_res p && deps_ok (p_deps p).
+
+(* operation o puts digest d for tag t: a PUT that passed the dependency check, or a duplicate
+   put forwarded by a neighbour (which made that check itself) *)
+Definition writesb (o : op) (t d : N) : bool :=
+  match o with
+  | Put p => (p_tag p =? t) && (p_dig p =? d) && passed p
+  | DupPut t' d' _ _ _ => (t' =? t) && (d' =? d)
+  | _ => false
+  end.
+Definition put_forb (t d : N) (ops : list op) : bool := existsb (fun o => writesb o t d) ops.
+
+(* the environment writes tag t's backend object *)
+Definition is_bkset (o : op) (t : N) : bool :=
+  match o with BkSet t' _ => t' =? t | _ => false end.
+Definition bkset_free (t : N) (ops : list op) : bool := forallb (fun o => negb (is_bkset o t)) ops.
+
 (* ------------------------------------------------------------------ comparison of observations *)
 
 Definition res_eqb (a b : res) : bool :=
@@ -360,3 +380,10 @@ Fixpoint chk_run (c : cfg) (k : chk) (ops : list op) (outs : list out) : chk :=
   end.
 
 Definition C32_check (c : cfg) (ops : list op) (outs : list out) : bool := k_ok (chk_run c chk0 ops outs).
+
+(* compact constructors (generated case text, examples) *)
+Definition P (t d : N) (r : bool) (deps : list ans) (f : fsf) (ex : list eans) (nb rep repok : bool) : op :=
+  Put (mkput t d r deps f ex nb rep repok).
+Definition O (r : res) (d : option N) (nb rep : list N) (dk : option N) (b : option content) (tk : option N) : out :=
+  mkout r d nb rep (mksnap dk b tk).
+Definition E (f : bool) (u : upans) : eans := mkea f u.
